@@ -28,7 +28,9 @@ def _strategy_marg(shapes):
         return {"D": D, "R": R, "N": N, "diag": diag, "dims": dims,
                 "p": draw(gen.measure_params("diag_pdf" if diag else "pdf", R, D, draw(st.sampled_from([10.0, 100.0])), extreme=True)),
                 "upd": draw(gen.maybe_update("diag_pdf" if diag else "pdf", R, D)),
-                "x": draw(gen.arr((N, len(dims)), -3, 3))}
+                "x": draw(gen.arr((N, len(dims)), -3, 3)),
+                # a second, different query on the same object (a result remembered from the first must not leak)
+                "dims2": draw(gen.perm_prefix(D)), "x2": draw(gen.arr((2, D), -3, 3))}
     return s()
 
 
@@ -78,6 +80,19 @@ def _run_marg(case):
     kap = np.maximum(1.0, oracle.cond(Sig))[:, None]
     if ok:
         check(fails, "marginal:integral_of_joint", got, want2, (scale2 + np.abs(lnZ)[:, None]) * kap)
+    if case.get("dims2"):
+        d2 = list(case["dims2"])
+        x2 = np.asarray(case["x2"], float)[:, d2]
+        ok2, m2 = lib(fails, "get_marginal_second", lambda: p.get_marginal(libx.IDX(d2)))
+        if ok2:
+            w2, s2 = oracle.mvn_ln(x2, mu[:, d2], Sig[:, d2][:, :, d2])
+            ok2, g2 = lib(fails, "get_marginal_second.evaluate_ln", lambda: m2.evaluate_ln(J(x2)))
+            if ok2:
+                check(fails, "marginal:second_query", g2, w2, s2)
+        if ok:
+            ok3, g3 = lib(fails, "get_marginal.evaluate_ln_again", lambda: m.evaluate_ln(J(x)))
+            if ok3 and not np.array_equal(np.asarray(g3), np.asarray(got)):
+                fails.append(Failure("marginal:first_result_changed", "the first marginal evaluates differently after a second get_marginal on the same density"))
     # type: diag stays diag
     if case["diag"] and not isinstance(m, pdf.GaussianDiagPDF):
         fails.append(Failure("marginal:type", f"marginal of a GaussianDiagPDF is {type(m).__name__}"))
